@@ -495,9 +495,6 @@ Qed.
 Lemma atom_is_atom h eol c y : atom_re h = Some (Some y) -> exists x, eval_atom eol h c = Some x.
 Proof.
   intros Ha. destruct h; cbn [atom_re] in Ha; try discriminate; try (eexists; reflexivity).
-  - destruct found; try discriminate. destruct pk; try discriminate. eexists; reflexivity.
-  - destruct found; try discriminate. destruct pk; try discriminate. eexists; reflexivity.
-  - destruct pk; try discriminate. eexists; reflexivity.
 Qed.
 
 Lemma eval_head_inv n self nd d c R nf :
@@ -550,3 +547,235 @@ Proof.
       eapply h_must_inv; eauto.
 Qed.
 End InvHelpers.
+
+Lemma maxrule_lang w mx R c : re_maxrule w mx = Some R -> bytes_ok (rest c) ->
+  Inv R false c (mx_result (maximum_rule w mx c tt)).
+Proof.
+  unfold re_maxrule. intros H Hb. destruct (Nat.eqb w 8 && (mx =? 255)) eqn:E; [|discriminate]. inversion H; subst R.
+  apply andb_true_iff in E. destruct E as [E1 E2]. apply Nat.eqb_eq in E1. apply N.eqb_eq in E2. subst w mx.
+  unfold maximum_rule.
+  assert (Hw : (4 <= 8)%nat) by lia. assert (HM : 255 < pow2 8) by (vm_compute; reflexivity).
+  pose proof (IntegerFacts.match_nothrow_char 8 255 c Hw HM Hb) as K.
+  destruct (lex_unsigned (rest c)) as [k|] eqn:El.
+  - cbv zeta in K. destruct K as [K1 K2]. change (Z.of_N 255) with 255%Z in *.
+    destruct (Z.le_gt_cases (unsigned_value (firstn k (rest c))) 255) as [L|L].
+    + rewrite (K1 L). simpl. exists (firstn k (rest c)). split; [symmetry; apply firstn_skipn|].
+      apply numeral_dec_octet; [|exact L].
+      apply IntegerFacts.lex_unsigned_iff in El. apply IntegerFacts.unsigned_lexeme_prefix in El. tauto.
+    + destruct (K2 L) as [st' Hs]. rewrite Hs. simpl. reflexivity.
+  - rewrite K. simpl. reflexivity.
+Qed.
+
+Section Top.
+Variable G : grammar.
+Variable C : cfg.
+Variable MX : rid -> option (nat * N).
+Hypothesis HG : table_wf G.
+Hypothesis Hacts : forall fam r, acts C fam r = AKNone.
+Hypothesis Hrof : forall k r, raise_on_failure C k r = false.
+
+Lemma Inv_match_hpp R nf (body : dyn -> cursor -> result) d r c :
+  Inv R nf c (body d c) -> Inv R nf c (match_hpp C AKNone body d r c).
+Proof.
+  intros H. unfold match_hpp.
+  assert (Eg : use_guard d AKNone = false) by (unfold use_guard; apply andb_false_r). rewrite Eg.
+  destruct (body d c) as [[| |e] c1 evs| |]; auto.
+  - unfold run_action. destruct (dA d); exact H.
+  - unfold fail_hook. rewrite Hrof. exact H.
+Qed.
+
+(* PEG-in-CFG reading, generic in the table: accepted prefixes lie in the language re_of computes,
+   nodes flagged never-failing never fail locally, every exception is a parse_error raised by the engine *)
+Theorem evalx_inv f : forall n d r c R nf, re_of G MX n r = Some (R, nf) -> bytes_ok (rest c) ->
+  Inv R nf c (evalx G C MX f d r c).
+Proof.
+  induction f as [|f IH]; intros n d r c R nf Hr Hb; [exact I|].
+  destruct n as [|n]; [discriminate|]. cbn [re_of] in Hr. cbn [evalx].
+  destruct (nth_error G r) as [nd|] eqn:En.
+  - apply Inv_traced. rewrite Hacts.
+    set (body := match MX r with
+                 | Some (w, mx) => fun (_ : dyn) (c' : cursor) => mx_result (maximum_rule w mx c' tt)
+                 | None => eval_head C (evalx G C MX f) f r (nhead nd) (nsubs nd) end).
+    assert (Hbody : Inv R nf c (body d c)).
+    { unfold body. unfold re_step in Hr. destruct (MX r) as [[w mx]|] eqn:Em.
+      - destruct (re_maxrule w mx) as [R0|] eqn:Er; [|discriminate]. simpl in Hr. inversion Hr; subst.
+        apply maxrule_lang; assumption.
+      - apply (eval_head_inv C (re_of G MX n) (evalx G C MX f) (evalx_good G C MX HG f) (fun d0 r0 c0 R0 nf0 => IH n d0 r0 c0 R0 nf0)).
+        + unfold re_step. exact Hr.
+        + exact Hb. }
+    destruct (nenabled nd); [apply Inv_match_hpp; exact Hbody | exact Hbody].
+  - inversion Hr; subst. reflexivity.
+Qed.
+End Top.
+
+(* ================================================================== Part 4 *)
+(* ---------- inversion of the top-level  seq< X, eof >  ---------- *)
+Lemma traced_ok k r a m c x c' evs : traced k r a m c x = Res Ok c' evs -> exists evs', x = Res Ok c' evs'.
+Proof. destruct x as [[| |e] c1 evs1| |]; simpl; intros H; inversion H; subst. eexists; reflexivity. Qed.
+Lemma guard_ok m s x c' evs : guard m s x = Res Ok c' evs -> x = Res Ok c' evs.
+Proof. destruct x as [[| |e] c1 evs1| |]; simpl; intros H; inversion H; subst. reflexivity. Qed.
+Lemma bind_ok x k c' evs : bind x k = Res Ok c' evs -> exists c1 e1 e2, x = Res Ok c1 e1 /\ k c1 = Res Ok c' e2.
+Proof.
+  destruct x as [[| |e] c1 evs1| |]; simpl; intros H; try discriminate.
+  destruct (k c1) as [[| |e] c2 evs2| |] eqn:Ek; simpl in H; inversion H; subst. eauto.
+Qed.
+Lemma match_hpp_ok (body : dyn -> cursor -> result) d r c c' evs :
+  match_hpp C0 AKNone body d r c = Res Ok c' evs -> exists evs', body d c = Res Ok c' evs'.
+Proof.
+  unfold match_hpp. assert (Eg : use_guard d AKNone = false) by (unfold use_guard; apply andb_false_r). rewrite Eg.
+  destruct (body d c) as [[| |e] c1 evs1| |]; try discriminate.
+  unfold run_action. destruct (dA d); simpl; intros H; inversion H; subst; eexists; reflexivity.
+Qed.
+
+Section UriTop.
+Variable G : grammar.
+Variable MX : rid -> option (nat * N).
+
+Lemma plain_ok f d r c nd c' evs : nth_error G r = Some nd -> MX r = None ->
+  evalx G C0 MX (S f) d r c = Res Ok c' evs ->
+  exists d' evs', eval_head C0 (evalx G C0 MX f) f r (nhead nd) (nsubs nd) d' c = Res Ok c' evs'.
+Proof.
+  intros En Em H. cbn [evalx] in H. rewrite En, Em in H. apply traced_ok in H. destruct H as [e1 H].
+  change (acts C0 (dAct d) r) with AKNone in H. cbv iota in H.
+  destruct (nenabled nd).
+  - apply match_hpp_ok in H. destruct H as [e2 H]. eauto.
+  - eauto.
+Qed.
+
+Lemma root_inv f d root x e en1 en2 c c' evs :
+  nth_error G root = Some (mknode HSeq [x; e] en1) -> MX root = None ->
+  nth_error G e = Some (mknode HEof [] en2) -> MX e = None ->
+  evalx G C0 MX f d root c = Res Ok c' evs ->
+  rest c' = [] /\ exists f' d' evs', evalx G C0 MX f' d' x c = Res Ok c' evs'.
+Proof.
+  intros Er Mr Ee Me H. destruct f as [|f]; [discriminate|].
+  destruct (plain_ok f d root c _ c' evs Er Mr H) as [d1 [e1 H1]]. cbn [nhead nsubs] in H1.
+  unfold eval_head in H1. cbn [eval_atom] in H1. unfold h_seq in H1. apply guard_ok in H1.
+  cbn [seq_all] in H1. apply bind_ok in H1. destruct H1 as [c1 [ea [eb [Hx H2]]]].
+  apply bind_ok in H2. destruct H2 as [c2 [ec [ed [He H3]]]]. inversion H3; subst c2.
+  destruct f as [|f]; [discriminate|].
+  destruct (plain_ok f (opt_ d1) e c1 _ c' ec Ee Me He) as [d2 [e2 H4]]. cbn [nhead nsubs] in H4.
+  unfold eval_head in H4. cbn [eval_atom] in H4.
+  destruct (in_empty c1) eqn:Ei; [|discriminate H4]. inversion H4; subst c1.
+  split.
+  - unfold in_empty in Ei. destruct (rest c'); [reflexivity | discriminate].
+  - eauto.
+Qed.
+End UriTop.
+
+(* ---------- the generated table ---------- *)
+Definition head_wf_b (h : head) : bool :=
+  match h with
+  | HAny pk | HOne _ pk _ | HRange _ pk _ _ | HRanges pk _ => match pk with PkChar => true | _ => false end
+  | _ => true
+  end.
+Lemma head_wf_b_ok h : head_wf_b h = true -> head_wf h.
+Proof. destruct h; simpl; try (intros; exact I); destruct pk; simpl; try discriminate; intros; exact I. Qed.
+Lemma table_wf_of G : forallb (fun nd => head_wf_b (nhead nd)) G = true -> table_wf G.
+Proof.
+  intros H r nd Hn. rewrite forallb_forall in H. apply head_wf_b_ok. apply H. eapply nth_error_In; eauto.
+Qed.
+Lemma uri_table_wf : table_wf uri_table.
+Proof. apply table_wf_of. vm_compute. reflexivity. Qed.
+
+Lemma C0_acts : forall fam r, acts C0 fam r = AKNone.
+Proof. reflexivity. Qed.
+Lemma C0_rof : forall k r, raise_on_failure C0 k r = false.
+Proof. reflexivity. Qed.
+
+Definition uri_evalx_inv := evalx_inv uri_table C0 uri_mx uri_table_wf C0_acts C0_rof.
+
+(* shape of the root  seq< uri::X, eof >  : (node of uri::X, node of eof) *)
+Definition root_shape (t : top) : option (rid * rid) :=
+  match nth_error uri_table (uri_root t) with
+  | Some (mknode HSeq [x; e] _) =>
+      match nth_error uri_table e with
+      | Some (mknode HEof [] _) => Some (x, e)
+      | _ => None
+      end
+  | _ => None
+  end.
+
+Definition incl_fuel : nat := 1000 * 1000.
+
+(* everything the soundness argument needs from the concrete table, as one computable certificate *)
+Definition sound_cert (t : top) : bool :=
+  match root_shape t with
+  | Some (x, e) =>
+      match uri_mx (uri_root t), uri_mx e, re_of uri_table uri_mx uri_re_depth x with
+      | None, None, Some (R, _) => incl_auto incl_fuel R (rfc t)
+      | _, _, _ => false
+      end
+  | None => false
+  end.
+
+Lemma sound_of_cert t : sound_cert t = true ->
+  forall s, bytes_ok s -> uri_accepts t s -> matches (rfc t) s.
+Proof.
+  unfold sound_cert, root_shape. intros Hc s Hs [f [c' [evs Hrun]]].
+  destruct (nth_error uri_table (uri_root t)) as [[h subs en1]|] eqn:Er; [|discriminate].
+  destruct h; try discriminate. destruct subs as [|x [|e [|? ?]]]; try discriminate.
+  destruct (nth_error uri_table e) as [[h2 subs2 en2]|] eqn:Ee; [|discriminate].
+  destruct h2; try discriminate. destruct subs2; try discriminate.
+  destruct (uri_mx (uri_root t)) eqn:M1; [discriminate|].
+  destruct (uri_mx e) eqn:M2; [discriminate|].
+  destruct (re_of uri_table uri_mx uri_re_depth x) as [[R nf]|] eqn:ER; [|discriminate].
+  unfold uri_run in Hrun.
+  destruct (root_inv uri_table uri_mx f d0 (uri_root t) x e en1 en2 _ c' evs Er M1 Ee M2 Hrun) as [Hend [f' [d' [evs' Hx]]]].
+  pose proof (uri_evalx_inv f' uri_re_depth d' x (mkcur s pos0) R nf ER Hs) as K.
+  rewrite Hx in K. simpl in K. destruct K as [pre [E M]]. rewrite Hend, app_nil_r in E. subst pre.
+  eapply incl_auto_sound; eauto.
+Qed.
+
+(* ---------- no exception other than parse_error ---------- *)
+Definition is_some {A} (o : option A) : bool := match o with Some _ => true | None => false end.
+Lemma only_parse_error_of t : is_some (uri_re t) = true ->
+  forall f s e c' evs, bytes_ok s -> uri_run f t s = Res (Exc e) c' evs -> exists w p, e = EParse w p.
+Proof.
+  unfold uri_re. intros Hc f s e c' evs Hs Hrun.
+  destruct (re_of uri_table uri_mx uri_re_depth (uri_root t)) as [[R nf]|] eqn:ER; [|discriminate].
+  pose proof (uri_evalx_inv f uri_re_depth d0 (uri_root t) (mkcur s pos0) R nf ER Hs) as K.
+  unfold uri_run in Hrun. rewrite Hrun in K. exact K.
+Qed.
+Lemma uri_re_all : forallb (fun t => is_some (uri_re t)) [TURI; TURI_reference; Tabsolute_URI; TIPv4address; TIPv6address] = true.
+Proof. vm_compute. reflexivity. Qed.
+Lemma only_parse_error : forall t f s e c' evs, bytes_ok s -> uri_run f t s = Res (Exc e) c' evs -> exists w p, e = EParse w p.
+Proof.
+  intros t. apply only_parse_error_of.
+  pose proof uri_re_all as H. rewrite forallb_forall in H. apply H. destruct t; simpl; tauto.
+Qed.
+
+(* acceptance and rejection exclude each other (fuel monotonicity) *)
+Lemma accepts_not_rejects t s : uri_accepts t s -> uri_rejects t s -> False.
+Proof.
+  intros [f1 [c1 [e1 H1]]] [f2 [c2 [e2 [H2|[e H2]]]]]; unfold uri_run in *;
+    destruct (evalx_functional _ _ _ _ _ _ _ _ _ _ _ _ _ _ H1 H2) as [E _]; discriminate.
+Qed.
+
+(* ---------- soundness, rule by rule ---------- *)
+Lemma sound_IPv4address : forall s, bytes_ok s -> uri_accepts TIPv4address s -> matches (rfc TIPv4address) s.
+Proof. apply sound_of_cert. vm_compute. reflexivity. Qed.
+Lemma sound_IPv6address : forall s, bytes_ok s -> uri_accepts TIPv6address s -> matches (rfc TIPv6address) s.
+Proof. apply sound_of_cert. vm_compute. reflexivity. Qed.
+Lemma sound_URI : forall s, bytes_ok s -> uri_accepts TURI s -> matches (rfc TURI) s.
+Proof. apply sound_of_cert. vm_compute. reflexivity. Qed.
+Lemma sound_absolute_URI : forall s, bytes_ok s -> uri_accepts Tabsolute_URI s -> matches (rfc Tabsolute_URI) s.
+Proof. apply sound_of_cert. vm_compute. reflexivity. Qed.
+Lemma sound_URI_reference : forall s, bytes_ok s -> uri_accepts TURI_reference s -> matches (rfc TURI_reference) s.
+Proof. apply sound_of_cert. vm_compute. reflexivity. Qed.
+
+(* ---------- the recorded finding, computed on the generated table ---------- *)
+(* "//1.2.3.4a" *)
+Definition host_witness : list byte := [47; 47; 49; 46; 50; 46; 51; 46; 52; 97].
+
+Lemma complete_refuted :
+  exists s, bytes_ok s /\ matches (rfc TURI_reference) s /\ uri_rejects TURI_reference s /\ ~ uri_accepts TURI_reference s.
+Proof.
+  assert (R : uri_rejects TURI_reference host_witness).
+  { exists (uri_fuel host_witness). vm_compute. do 2 eexists. left. reflexivity. }
+  exists host_witness. split; [|split; [|split]].
+  - unfold host_witness, bytes_ok. repeat constructor.
+  - apply re_match_correct. vm_compute. reflexivity.
+  - exact R.
+  - intros A. exact (accepts_not_rejects _ _ A R).
+Qed.
